@@ -29,6 +29,10 @@ type simAtomix struct {
 
 	fuse *fuse // shared crash fuse / effect counter (may be nil)
 
+	// gate, when set, is called without the lock held after an indexed-map Append was executed ("appended")
+	// before an indexed-map Get is ("get") and after it was ("got"); it may block to hold the calling client at that point (C08).
+	gate func(point, name, key string)
+
 	lis *bufconn.Listener
 	srv *grpc.Server
 }
@@ -571,6 +575,9 @@ func (m *simIMapServer) Size(ctx context.Context, r *indexedmapv1.SizeRequest) (
 }
 
 func (m *simIMapServer) Append(ctx context.Context, r *indexedmapv1.AppendRequest) (*indexedmapv1.AppendResponse, error) {
+	if g := m.s.gate; g != nil {
+		defer g("appended", r.ID.Name, r.Key)
+	}
 	m.s.mu.Lock()
 	defer m.s.mu.Unlock()
 	if err := m.s.enter(); err != nil {
@@ -634,6 +641,10 @@ func (m *simIMapServer) Update(ctx context.Context, r *indexedmapv1.UpdateReques
 }
 
 func (m *simIMapServer) Get(ctx context.Context, r *indexedmapv1.GetRequest) (*indexedmapv1.GetResponse, error) {
+	if g := m.s.gate; g != nil {
+		g("get", r.ID.Name, r.Key)
+		defer g("got", r.ID.Name, r.Key) // runs after the unlock below
+	}
 	m.s.mu.Lock()
 	defer m.s.mu.Unlock()
 	if err := m.s.enter(); err != nil {
